@@ -36,6 +36,17 @@ def _rng():
   return rng
 
 
+def _key_of(x):
+  """Hashable identity of a (possibly symbolic, possibly nested) value."""
+  if isinstance(x, (list, tuple)):
+    return tuple(_key_of(y) for y in x)
+  if pysym.is_sym(x):
+    return ('t', T(x).get_id())
+  if isinstance(x, (bytes, bytearray)):
+    return ('b', bytes(x))
+  return ('v', x)
+
+
 class _Os:
 
   @staticmethod
@@ -60,12 +71,14 @@ class _Shake:
     self.data.append(b)
 
   def digest(self, k):
-    stubs.USED.add('hashlib.shake_128().digest(k): k arbitrary bytes '
-                   '(function of nothing: over-approximation)')
+    stubs.USED.add('hashlib.shake_128().digest(k): k arbitrary bytes, the '
+                   'same bytes for the same absorbed data')
     e = pysym.eng()
-    out = symbytes.fresh_bytes(k, 'shake')
-    e.log[-1] = ('hash', 'shake', k)
-    return out
+    key = ('shake', _key_of(self.data), k)
+    if key not in e.memo:
+      e.memo[key] = (symbytes.fresh_bytes(k, 'shake'), self.data)
+      e.log[-1] = ('hash', 'shake', k)
+    return symbytes.SymBytes(list(e.memo[key][0]))
 
 
 class _Hashlib:
@@ -77,15 +90,25 @@ class _Random:
   @staticmethod
   def seed(s=None):
     pysym.eng().notes['mt_seed'] = s
+    pysym.eng().notes['mt_calls'] = 0
     if s is None:
       pysym.eng().log.append(('entropy', 'random.seed(None)', 0))
 
   @staticmethod
   def getrandbits(n):
-    stubs.USED.add('random.getrandbits(n): arbitrary integer in [0, 2^n)')
+    stubs.USED.add('random.getrandbits(n): arbitrary integer in [0, 2^n), '
+                   'the same for the same seed, call index and n')
     e = pysym.eng()
+    sd = e.notes.get('mt_seed')
+    idx = e.notes.get('mt_calls', 0)
+    e.notes['mt_calls'] = idx + 1
+    key = ('mt', _key_of(sd), idx, n) if sd is not None else None
+    if key is not None and key in e.memo:
+      return SInt(e.memo[key][0])
     t = e.fresh('mt')
     e.assume(z3.And(t >= 0, t < 2**n))
+    if key is not None:
+      e.memo[key] = (t, sd)
     return SInt(t)
 
 
@@ -98,6 +121,7 @@ class _NumpyRandom:
 
     def __init__(self, seed=None):
       self.seed = seed
+      self.calls = 0
       if seed is None:
         pysym.eng().log.append(('entropy', 'numpy seed None', 0))
 
@@ -116,11 +140,21 @@ class _NumpyRandom:
       self.bg = bg
 
     def bytes(self, k):
-      stubs.USED.add('numpy Generator.bytes(k): k arbitrary bytes')
+      stubs.USED.add('numpy Generator.bytes(k): k arbitrary bytes, the same '
+                     'for the same bit generator, seed and call index')
       e = pysym.eng()
+      sd = self.bg.seed
+      idx = self.bg.calls
+      self.bg.calls += 1
+      key = None if sd is None else (
+          'numpy', type(self.bg).__name__, _key_of(sd), idx, k)
+      if key is not None and key in e.memo:
+        return symbytes.SymBytes(list(e.memo[key][0]))
       out = symbytes.fresh_bytes(k, 'numpy')
       e.log[-1] = ('hash', 'numpy', k)
-      return out
+      if key is not None:
+        e.memo[key] = (out, sd)
+      return symbytes.SymBytes(list(out))
 
 
 class _Math:
@@ -288,6 +322,106 @@ def range_job(rec, seed, name, ns, seeded):
                                  kind=kind)), bad, tags=tags)
     if len(seen) >= 3:
       break
+
+
+HISTORY_PAIRS = [(29, 32), (32, 29), (25, 32), (32, 25), (31, 32), (33, 32),
+                 (32, 33), (1, 32), (5, 8), (8, 5), (57, 64), (64, 57),
+                 (61, 64), (64, 61), (65, 64), (64, 65), (1, 64), (33, 40)]
+
+
+def history_job(rec, seed, name, pairs):
+  """Purity over call histories: RandomBits(n_b, s), RandomBits(n_a, s),
+  RandomBits(n_b, s) on the same generator object - first and third result
+  are equal for every non-zero seed."""
+  rng = _rng()
+  gen = _instance(rng, name)
+  cls = type(gen).__name__
+  rec.functions('paranoid_crypto.lib.randomness_tests.rng:%s.RandomBits' % cls)
+  sbits = SEED_BITS.get(name, 300)
+  rec.bounds('generator %s, every non-zero seed below 2^%d, call histories '
+             '(n_b, n_a, n_b) on one generator object for (n_a, n_b) in %s' %
+             (name, sbits, pairs))
+  cexs = []
+  reach = 0
+  with stubs.patched(rng, **_patches(rng)):
+    for (na, nb) in pairs:
+
+      def run(e, na=na, nb=nb):
+        s = ivar(e, 'seed', lo=1, hi=2**sbits)
+        e.notes['havoc_mod'] = 1 << 16
+        if name.startswith(('lehmer', 'lcgnist')):
+          e.notes['entropy_cap'] = 2
+        r1 = gen.RandomBits(nb, seed=s)
+        gen.RandomBits(na, seed=s)
+        r2 = gen.RandomBits(nb, seed=s)
+        return r1, r2
+
+      for p in pysym.explore(run, max_paths=200, max_decisions=20000):
+        e = p.eng
+        if p.kind == 'abort' and str(p.value).startswith('bound-hit'):
+          rec.path('bound-hit')
+          continue
+        rec.path(p.kind)
+        if p.kind == 'abort':
+          rec.inconclusive('%s history (%d,%d): %s' % (name, na, nb, p.value))
+          continue
+        if p.kind == 'raise':
+          r, m = e.feasible()
+          if r == 'sat':
+            cexs.append((na, nb, inputs_of(e, m), repr(p.value)))
+          elif r != 'unsat':
+            rec.inconclusive('exception path undecided %s' % name)
+          continue
+        r1, r2 = p.value
+        r, m, _ = e.prove(T(r1) == T(r2), timeout_ms=60000)
+        if r == 'proved':
+          rec.obligation('proved')
+        elif r == 'unknown':
+          rec.obligation('unknown', '%s history (%d,%d)' % (name, na, nb))
+        else:
+          cexs.append((na, nb, inputs_of(e, m), 'results differ'))
+        if not reach:
+          r, m = e.feasible()
+          if r == 'sat':
+            reach = 1
+            rec.sample(dict(generator=name, history=[nb, na, nb],
+                            witness=inputs_of(e, m)))
+  rec.reach(1, reach)
+  for na, nb, cex, what in cexs[:2]:
+    bad, detail = replay_history(name, na, nb, cex['seed'])
+    rec.replayed()
+    rec.violation('rng.%s.RandomBits' % cls, 'history',
+                  '%s: %s' % (name, detail),
+                  dict(generator=name, history=[nb, na, nb],
+                       seed=cex['seed']),
+                  dict(module='harness.props.c20', function='replay_history_cmd',
+                       args=dict(name=name, na=na, nb=nb,
+                                 seed=str(cex['seed']))), bad)
+
+
+def replay_history(name, na, nb, seed):
+  """Concrete history on a freshly loaded module (no state left over from
+  the symbolic runs), plus the neighbouring histories of the same window."""
+  import importlib  # pylint: disable=g-import-not-at-top
+  rng = importlib.reload(_rng())
+  na, nb, seed = int(na), int(nb), int(seed)
+  gen = _instance(rng, name)
+  try:
+    fresh = gen.RandomBits(nb, seed=seed)
+    gen.RandomBits(na, seed=seed)
+    again = gen.RandomBits(nb, seed=seed)
+  except Exception as ex:  # pylint: disable=broad-except
+    return True, 'history (%d, %d, %d) seed=%d raised %r' % (nb, na, nb, seed,
+                                                            ex)
+  return fresh != again, (
+      'RandomBits(%d, seed=%d) = %#x, after RandomBits(%d, seed=%d) the same '
+      'call gives %#x' % (nb, seed, fresh, na, seed, again))
+
+
+def replay_history_cmd(name, na, nb, seed):
+  bad, detail = replay_history(name, na, nb, seed)
+  print(detail)
+  return bad
 
 
 def _fmt_ns(ns):
@@ -625,6 +759,16 @@ def jobs(tier, seed):
                        timeout=3000 if tier == 'thorough' else 600,
                        cost=len(ch)))
   out.append(Job('seed_ignored', seed_ignored_job, {}, timeout=300, cost=1))
+  for name in rng_names:
+    if name.startswith(SEED_IGNORED):
+      continue
+    pairs = HISTORY_PAIRS
+    if name in ('lcgnist', 'shake128'):
+      pairs = [q for q in pairs if max(q) <= 40]
+    out.append(Job('history_%s' % name.replace('/', '_').replace(
+        '*', 'star').replace('+', 'plus'), history_job,
+                   dict(name=name, pairs=pairs), timeout=1200,
+                   cost=2 * len(pairs)))
   jn = list(range(1, 41)) + [63, 64, 65, 96] if tier == 'quick' else list(
       range(1, 129))
   out.append(Job('java_emulation', java_emulation, dict(ns=jn), timeout=3000,
